@@ -106,14 +106,18 @@ def inline_round(ctx):
     for k, b in f.mir.items():
         if b.j.get("root") in paths:
             bearing.add(k)
-    cands = inline.candidates(f, set(pins))
+    from . import roles as _roles
+    hints = list(_roles.WANTED)
+    hard = {k for k, why in pins.items() if why != "method of a public type"}
+    # a function that itself contains what a failed resolver was looking for may be inlined even if it is `pub` or a method of a
+    # public type (a new accessor on the reader that wraps two reads, say): those pins are only a default
+    direct = {k for k, b in f.mir.items() if k not in hard and hints and any(_safe(p, b) for p in hints)}
+    cands = inline.candidates(f, (set(pins) - direct) | hard, allow_pub=direct)
     cands = {k: site for k, site in cands.items() if site[0] in bearing}
     if not cands:
         return f, []
     # demand-driven: when the failed resolvers said what they were looking for, only the helpers that (transitively, through other
     # unpinned helpers) contain it are inlined in this round; without hints every candidate goes in
-    from . import roles as _roles
-    hints = list(_roles.WANTED)
     if hints:
         R = ctx.roles
 
